@@ -384,7 +384,11 @@ class Assign(TreeFn):
       in_size = self._num_input_rows(inputs)
       out_size = iter_utils.batch_size(outputs[0])
       if in_size is not None and in_size != out_size:
-        raise ValueError(
+        # Not a failure of this element alone: from here on the outputs and the
+        # inputs are shifted against each other. The error type is not one that
+        # ignore_error skips, otherwise the following batches of batch_size rows
+        # would silently get the rows of other batches.
+        raise RuntimeError(
             f'Assign with {self.batch_size=} needs input batches of that many'
             f' rows: mismatch of {out_size} output rows and {in_size} input'
             ' rows.'
